@@ -502,8 +502,8 @@ func (a *Analyzer) computeValueSummaryOpt(f *ssa.Function, force bool) *Term {
 		if f.Object() != nil && f.Object().Exported() {
 			return nil
 		}
-		if strings.HasPrefix(funcPkgPath(f), modPath+"/state") {
-			return nil
+		if strings.HasPrefix(funcPkgPath(f), modPath+"/state") && !(len(f.Blocks) == 1 && f.Object() != nil && !f.Object().Exported()) {
+			return nil // (a straight-line unexported helper of the state package, e.g. "write both fields, return the pair", is fine)
 		}
 	}
 	var rets []*ssa.Return
